@@ -8,6 +8,7 @@ from . import facts as F
 from .engine import Analysis, CLS, PUBLIC_API
 from .loader import norm
 from .report import Rule
+from .rules_common import rules_of
 from .rules_common import (digest_checked_before_delete, MUT, primary, base_class, key_matches, showlock, site_text, site_func, site_loc,
                            mutation_events, resource_hits, func_nodes)
 from .terms import (AnalysisError, show, showv, tag, C, P, V, NONE, EMPTY, classify, is_rooted, is_summary,
@@ -300,6 +301,13 @@ def check_C04(A: Analysis, tier):
                 rf.fail(Q("delete_object"), f"rename-for-deletion of {k}", f"when the last pid is deleted the {k} file is no "
                         "longer marked for deletion: an unreferenced object / empty list is left behind")
     rules.append(rf)
+    _src = [r for r in rules_of(A, "C10") if r.rid == "C10.a"][0]
+    _sh = Rule("C04", "C04.i", 'delete_object unbinds the pid (renames its reference away) before it takes the pid out of the cid list, and the object goes last (shared with C10.a): a delete interrupted in between must not leave a bound pid that the list no longer counts', floor=_src.floor)
+    _sh.instances, _sh.nontrivial, _sh.obligations = list(_src.instances), set(_src.nontrivial), _src.obligations
+    for f in _src.findings:
+        if "delete_object" in f.func or "delete_object" in str(f.detail) or "renamed away" in f.message or "before the pid reference" in f.message:
+            _sh.fail(f.func, f.construct, f.message, f.loc, f.detail)
+    rules.append(_sh)
     from .rules_locks import no_dir_removal_rule
     rh4 = Rule("C04", "C04.h", "no call removes a directory of the store (shared with C07.h): a shard directory holds the objects, lists and "
                "references of every identifier with the same prefix, so removing one (rmtree, or rmdir after a wrong emptiness test) takes other pids' data", floor=3)
@@ -307,7 +315,7 @@ def check_C04(A: Analysis, tier):
     rules.append(rh4)
     # the tagging roll-back unbinds a pid (and shrinks its cid list): run for a pid that was already bound it makes
     # the object look unreferenced to the next delete_object of another pid
-    c3 = [r for r in c03_cached(A) if r.rid == "C03.e"][0]
+    c3 = [r for r in rules_of(A, "C03") if r.rid == "C03.e"][0]
     rg4 = Rule("C04", "C04.g", "the tagging roll-back never unbinds a pid that was bound before the call (shared with C03.e): otherwise the "
                "object is deleted with its last *listed* pid while that pid still refers to it", floor=c3.floor)
     rg4.instances, rg4.nontrivial, rg4.obligations = list(c3.instances), set(c3.nontrivial), c3.obligations
@@ -442,7 +450,7 @@ def check_C05(A: Analysis, tier):
     rules.append(rd)
 
     # the line format of the cid list is what "appears exactly once in exactly that list" rests on
-    c15 = [r for r in check_C15(A, tier) if r.rid == "C15.c"][0]
+    c15 = [r for r in rules_of(A, "C15") if r.rid == "C15.c"][0]
     rg5 = Rule("C05", "C05.g", "a cid list comes into being by a rename only where it was tested absent: a list that may already exist "
                "(and name other pids) is extended or rewritten from its own lines, never replaced by a fresh one-line file", floor=2)
     for m in ALL_MODES:
@@ -545,7 +553,7 @@ def check_C09(A: Analysis, tier):
                      A.p.loc(ev.func, ev.node))
     rules.append(re9)
     from .rules_data import check_C01
-    c1e = [r for r in check_C01(A, "quick") if r.rid == "C01.e"][0]
+    c1e = [r for r in rules_of(A, "C01") if r.rid == "C01.e"][0]
     rf9 = Rule("C09", "C09.f", "what is renamed to objects/<digest> holds every byte that was hashed (shared with C01.e): a temp file written with "
                "gaps or a dropped tail is, once published, indistinguishable from a half-written object", floor=c1e.floor)
     rf9.instances, rf9.nontrivial, rf9.obligations = list(c1e.instances), set(c1e.nontrivial), c1e.obligations
@@ -672,7 +680,7 @@ def check_C10(A: Analysis, tier):
     rules.append(rc)
 
     rd = Rule("C10", "C10.d", "no clean-up branch uses a path after renaming it away (see C05.a)", floor=1)
-    c5 = [r for r in c05_cached(A) if r.rid == "C05.a"][0]
+    c5 = [r for r in rules_of(A, "C05") if r.rid == "C05.a"][0]
     rd.instances = list(c5.instances)
     rd.nontrivial = set(c5.nontrivial)
     rd.obligations = c5.obligations
@@ -695,7 +703,7 @@ def check_C10(A: Analysis, tier):
                                 "leaves the list empty and every other pid sharing the object loses its reference", A.p.loc(ev.func, ev.node))
     rules.append(rf)
 
-    c9 = [r for r in check_C09(A, tier) if r.rid == "C09.a"][0]
+    c9 = [r for r in rules_of(A, "C09") if r.rid == "C09.a"][0]
     rg = Rule("C10", "C10.g", "no permanent object / metadata / pid-reference file is created or written in place (shared with "
               "C09.a): a death can then never leave a partial or empty file at an address the recovery code trusts", floor=c9.floor)
     rg.instances, rg.nontrivial, rg.obligations = list(c9.instances), set(c9.nontrivial), c9.obligations
@@ -1079,6 +1087,32 @@ def check_C15(A: Analysis, tier):
                 A.p.loc(ch, ch.node))
     rules.append(ra)
 
+    rg15 = Rule("C15", "C15.g", "the overloaded look-up helpers return a fall-back candidate (the argument as given, or un-sharded below the entity "
+                "directory) only on a path on which the README address was tested absent: the published layout has precedence", floor=2)
+    for helper, cls_name in (("_get_hashstore_data_object_path", "OBJ"), ("_get_hashstore_metadata_path", "META")):
+        it_l = A.run(Q(helper), "th")
+        hf = A.p.func(Q(helper))
+        for (rf_, rn_, s_, val_, rctx) in it_l.return_sites:
+            if rf_ is not hf:
+                continue
+            rg15.ob()
+            kinds = {base_class(classify(t)).cls for t in val_}
+            rg15.inst(f"{helper}:{rn_.lineno} returns {sorted(kinds)}")
+            # what must have been found absent before this candidate may be returned
+            need = None
+            if all(not is_rooted(t) for t in val_):
+                need = lambda t: is_rooted(t)                                   # the argument as given: after every store-rooted candidate
+            elif cls_name == "OBJ" and kinds <= {"FALLBACK"}:
+                need = lambda t: base_class(classify(t)).cls == "OBJ"           # objects/<arg>: after objects/<shard(arg)>
+            if need is None:
+                continue
+            absent = [a for f_, pol in s_.facts for a in F.atoms_of(f_) if a[0] == "probe" and a[1] in ("isfile", "exists")
+                      and any(need(t) for t in a[2]) and F.implied(s_.facts, a) is False]
+            if not absent:
+                rg15.fail(hf, rn_, f"{helper} returns a lower-priority candidate ({sorted(kinds)}) on a path on which the store's own address was not tested "
+                          "absent: a file of the same name elsewhere (the working directory, the entity directory) shadows the stored one", A.p.loc(hf, rn_))
+    rules.append(rg15)
+
     rb = Rule("C15", "C15.b", "_shard cuts token i as [i*width, (i+1)*width) for i in range(depth) and the remainder "
               "from depth*width to the end; empty strings dropped", floor=2)
     sh = A.p.func(Q("_shard"))
@@ -1246,7 +1280,7 @@ def check_C15(A: Analysis, tier):
     # the depth, width, algorithm and default namespace an instance works with are the *supplied* ones; they are the
     # store's own only because the constructor established equality with hashstore.yaml (C14.a)
     from .rules_data import check_C14
-    c14 = [r for r in check_C14(A, "quick") if r.rid == "C14.a"][0]
+    c14 = [r for r in rules_of(A, "C14") if r.rid == "C14.a"][0]
     rf15 = Rule("C15", "C15.f", "the layout parameters in use (depth, width, algorithm, default metadata namespace) are those pinned in hashstore.yaml: "
                 "the constructor accepts supplied values only when equal to the stored ones (shared with C14.a)", floor=c14.floor)
     rf15.instances, rf15.nontrivial, rf15.obligations = list(c14.instances), set(c14.nontrivial), c14.obligations
